@@ -107,3 +107,35 @@ impl PanicInfo {
         format!("panic at {}:{}: {}", rel_file(&self.file), self.line, self.msg)
     }
 }
+
+// ---------------------------------------------------------------------- log sink
+
+use std::sync::atomic::{AtomicU64, Ordering};
+
+/// number of `invalid HeapIdx` warnings the code under test emitted (those paths only warn)
+pub static INVALID_HANDLE_WARNINGS: AtomicU64 = AtomicU64::new(0);
+
+struct Sink;
+impl log::Log for Sink {
+    fn enabled(&self, m: &log::Metadata) -> bool {
+        m.level() <= log::Level::Warn
+    }
+    fn log(&self, r: &log::Record) {
+        if r.level() <= log::Level::Warn {
+            let msg = format!("{}", r.args());
+            if msg.contains("invalid HeapIdx") {
+                INVALID_HANDLE_WARNINGS.fetch_add(1, Ordering::Relaxed);
+            }
+        }
+    }
+    fn flush(&self) {}
+}
+
+pub fn install_log_sink() {
+    static S: Sink = Sink;
+    let _ = log::set_logger(&S);
+    log::set_max_level(log::LevelFilter::Warn);
+}
+pub fn take_invalid_handle_warnings() -> u64 {
+    INVALID_HANDLE_WARNINGS.swap(0, Ordering::Relaxed)
+}
